@@ -27,6 +27,7 @@ Inductive Simple : stmt -> Prop :=
 | S_ifelse c a b : plain_rval mt c = true -> Simple a -> Simple b -> Simple (SIf c a (Some b))
 | S_block l : SimpleL l -> Simple (SBlock l)
 | S_while c a : plain_rval mt c = true -> Simple a -> Simple (SRepeat (LWhile c) a)
+| S_count n a : plain_rval mt n = true -> Simple a -> Simple (SRepeat (LCount n) a)
 with SimpleL : list stmt -> Prop :=
 | SL_nil : SimpleL []
 | SL_cons st r : Simple st -> SimpleL r -> SimpleL (st :: r).
@@ -90,6 +91,151 @@ Lemma iterate_while f ss c a : iterate rt mt (S f) false ss (Some c) None None N
    match sig with SigBreak => ROk SigNormal s3 | SigReturn v => ROk (SigReturn v) s3 | SigNormal => iterate rt mt f false s3 (Some c) None None None a end).
 Proof. reflexivity. Qed.
 
+Lemma c_count n a : c_stmt rt mt false None (SRepeat (LCount n) a) =
+  [I0 OC_LOOP] ++ c_rval rt mt n (DLoop LV_COUNTER) ++ counter_test ++ [jump JC_IF_FALSE (len (c_stmt rt mt false (Some (len (counter_post None) + 1)) a ++ counter_post None) + 2)] ++
+  (c_stmt rt mt false (Some (len (counter_post None) + 1)) a ++ counter_post None) ++
+  [jump JC_ALWAYS (- (len counter_test + 1 + len (c_stmt rt mt false (Some (len (counter_post None) + 1)) a ++ counter_post None)))] ++ [I0 OC_END_LOOP].
+Proof. reflexivity. Qed.
+Lemma exec_count f ss n a : Sem.exec rt mt (S (S f)) false ss (SRepeat (LCount n) a) =
+  (let* (cnt, s1) := eval_rval rt mt f false ss n in iterate rt mt f false s1 None (Some cnt) None None a).
+Proof. reflexivity. Qed.
+Lemma iterate_count f ss cnt a : iterate rt mt (S f) false ss None (Some cnt) None None a =
+  (let* (go, s1) := lift_res (positive cnt) ss in
+   if negb go then ROk SigNormal s1 else
+   let* (sig, s3) := Sem.exec rt mt f false s1 a in
+   match sig with
+   | SigBreak => ROk SigNormal s3
+   | SigReturn v => ROk (SigReturn v) s3
+   | SigNormal => match (do n' <- sub1 cnt; Ok (Some n')) with
+                  | Err e => RErr e s3
+                  | Ok cnt' => iterate rt mt f false s3 None cnt' None None a
+                  end
+   end).
+Proof. reflexivity. Qed.
+
+(* ---- the loop counter lives in the loop frame ---- *)
+Lemma loopvar_eqb_refl k : loopvar_eqb k k = true.
+Proof. destruct k; reflexivity. Qed.
+Lemma lv_get_set lv k v : lv_get (lv_set lv k v) k = Some v.
+Proof.
+  induction lv as [|[k' v'] t IH]; cbn [lv_set lv_get]; [rewrite loopvar_eqb_refl; reflexivity|].
+  destruct (loopvar_eqb k k') eqn:E; cbn [lv_get]; [rewrite loopvar_eqb_refl; reflexivity|rewrite E; exact IH].
+Qed.
+
+Definition with_counter (s : mstate) (x : value) (k : Z) : mstate :=
+  mkM (m_pc s + k) (m_regs s) (m_globals s)
+      (match m_frames s with FLoop lv d :: r => FLoop (lv_set lv LV_COUNTER x) d :: r | fs => fs end)
+      (m_stack s) (m_unnamed s) (m_world s).
+
+Lemma sim_with_counter ss s x k : sim ss s -> sim ss (with_counter s x k).
+Proof.
+  intros H. destruct H as [Hr Hf Hg Hfr Hl Hw Hu]. constructor; cbn; try assumption.
+  destruct (m_frames s) as [|[p b r|lv d] t]; try assumption.
+Qed.
+
+Lemma put_counter s lv d r x k : m_frames s = FLoop lv d :: r ->
+  (do s' <- put_dest s (PLoopVar LV_COUNTER) x; Ok (with_pc s' (m_pc s' + k))) = Ok (with_counter s x k).
+Proof. intros Hf. unfold with_counter. cbn [put_dest put_loopvar]. rewrite Hf. reflexivity. Qed.
+
+(* storing the count of a counted loop *)
+Lemma counter_init v : plain_rval mt v = true ->
+  forall im ss s x ss1 fuel lv d r, sim ss s -> m_frames s = FLoop lv d :: r ->
+  code_at im (m_pc s) (c_rval rt mt v (DLoop LV_COUNTER)) -> eval_rval rt mt fuel false ss v = ROk x ss1 ->
+  ss1 = ss /\ exists n, esteps n im s = Some (with_counter s x (zlength (c_rval rt mt v (DLoop LV_COUNTER))), []).
+Proof.
+  intros Hp im ss s x ss1 fuel lv d r Hsim Hfr Hc He.
+  destruct fuel as [|fuel]; [destruct v; discriminate|]. rewrite eval_rval_S in He.
+  destruct v as [l|l|m|m|y|rg|e|g args]; cbn [plain_rval] in Hp; try discriminate.
+  - injection He as Hx Hs; subst x ss1. split; [reflexivity|]. rewrite c_rval_lit in *. cbn [move_const code_at] in Hc |- *. destruct Hc as [Hf _].
+    exists 1%nat. apply (estep1 im s _ _ _ Hf). cbn [Machine.exec i_op i_p0 i_p1 I2 dest_param].
+    replace (param_value (lit_param l)) with (Some (lit_value l)) by (destruct l; reflexivity).
+    unfold advance. rewrite (put_counter s lv d r (lit_value l) 1 Hfr). reflexivity.
+  - injection He as Hx Hs; subst x ss1. split; [reflexivity|]. rewrite c_rval_macro in *. cbn [move_const code_at] in Hc |- *. destruct Hc as [Hf _].
+    exists 1%nat. apply (estep1 im s _ _ _ Hf). cbn [Machine.exec i_op i_p0 i_p1 I2 dest_param]. unfold macro_param.
+    rewrite (param_value_of_value (macro mt m) Hp). unfold advance. rewrite (put_counter s lv d r (macro mt m) 1 Hfr). reflexivity.
+  - injection He as Hx Hs; subst x ss1. split; [reflexivity|]. rewrite c_rval_var in *. cbn [move_ref code_at dest_param] in Hc |- *. destruct Hc as [Hf _].
+    exists 1%nat. apply (estep1 im s _ _ _ Hf). cbn [Machine.exec i_op i_p0 i_p1 I2 read_name bind].
+    rewrite (sim_lookup ss s y Hsim). unfold advance. rewrite (put_counter s lv d r (lookup ss y) 1 Hfr). reflexivity.
+  - injection He as Hx Hs; subst x ss1. split; [reflexivity|]. rewrite c_rval_reg in *. cbn [move_ref code_at dest_param] in Hc |- *. destruct Hc as [Hf _].
+    exists 1%nat. apply (estep1 im s _ _ _ Hf). cbn [Machine.exec i_op i_p0 i_p1 I2].
+    rewrite (sim_get_reg ss s rg Hsim Hp). cbn [bind]. unfold advance. rewrite (put_counter s lv d r _ 1 Hfr). reflexivity.
+  - apply andb_true_iff in Hp. destruct Hp as [Hsup Hvis].
+    destruct (eval_expr_ok rt mt e Hsup fuel false ss x ss1 He) as [Hs1 Ep]. subst ss1. split; [reflexivity|].
+    rewrite c_rval_expr in *. apply code_at_app in Hc. destruct Hc as [Hce Hpop]. cbn [code_at dest_param] in Hpop. destruct Hpop as [Hfp _].
+    rewrite <- (peval_sim mt e ss s Hsim Hsup Hvis) in Ep.
+    destruct (c_expr_pushes_value rt mt e Hsup im s x Hce Ep) as [n Hn].
+    exists (n + 1)%nat. replace (@nil event) with (@nil event ++ @nil event) by reflexivity.
+    eapply esteps_app; [apply steps_esteps; exact Hn|].
+    apply (estep1 im (pushed s x (zlength (c_expr rt mt e))) _ _ _ Hfp).
+    cbn [Machine.exec i_op i_p0 I1]. unfold pop1. cbn [pushed m_stack bind].
+    set (s1 := with_stack (pushed s x (zlength (c_expr rt mt e))) (m_stack s)).
+    assert (Hf1 : m_frames s1 = FLoop lv d :: r) by exact Hfr.
+    unfold advance. cbn [put_dest]. rewrite Hf1. cbn [put_loopvar bind lift]. f_equal.
+    unfold with_counter, with_frames, with_vars, with_pc, s1, pushed, with_stack.
+    cbn [m_pc m_regs m_globals m_frames m_stack m_unnamed m_world]. rewrite Hfr. f_equal.
+    unfold zlength. rewrite app_length, Nat2Z.inj_add. cbn [length]. lia.
+Qed.
+
+(* the test and the count-down of a counted loop *)
+Lemma counter_test_steps im s lv d r cnt b :
+  m_frames s = FLoop lv d :: r -> lv_get lv LV_COUNTER = Some cnt -> positive cnt = Ok b ->
+  code_at im (m_pc s) counter_test ->
+  exists res, esteps 4 im s = Some (put_vm s (DReg R_RESULT) res 4, []) /\ truthy res = b.
+Proof.
+  intros Hfr Hlv Hpos Hc. unfold counter_test, test_op in Hc. cbn [push_of code_at] in Hc. destruct Hc as [Hf1 [Hf2 [Hf3 [Hf4 _]]]].
+  unfold positive in Hpos. destruct (pushable cnt) as [c'|e] eqn:Ep; cbn [bind] in Hpos; [|discriminate].
+  assert (Hc' : c' = cnt /\ cnt <> VNone) by (unfold pushable in Ep; destruct cnt; try discriminate; injection Ep as <-; (split; [reflexivity|discriminate])).
+  destruct Hc' as [-> Hnn].
+  destruct (ordering CGt cnt (VInt 0)) as [res|e] eqn:Eo; cbn [bind] in Hpos; [|discriminate]. injection Hpos as Hb.
+  exists res. split; [|exact Hb].
+  set (s1 := advance (with_stack s (cnt :: m_stack s))).
+  assert (E1 : esteps 1 im s = Some (s1, [])).
+  { apply (estep1 im s _ _ _ Hf1). cbn [Machine.exec i_op i_p0 I1 read_name bind]. unfold get_loopvar. rewrite Hfr, Hlv.
+    destruct cnt; try reflexivity. contradiction. }
+  set (s2 := advance (with_stack s1 (VInt 0 :: m_stack s1))).
+  assert (E2 : esteps 1 im s1 = Some (s2, [])) by (apply (estep1 im s1 _ _ _ Hf2); reflexivity).
+  set (s3 := advance (with_stack s2 (res :: m_stack s))).
+  assert (E3 : esteps 1 im s2 = Some (s3, [])).
+  { assert (Hf3' : fetch im (m_pc s2) = Some (I1 OC_OP (POperator OP_GT))) by exact Hf3.
+    apply (estep1 im s2 _ _ _ Hf3'). cbn [Machine.exec i_op i_p0 I1 is_unary]. unfold pop1. cbn [s2 s1 advance with_pc with_stack m_stack bind].
+    cbn [eval_binop]. rewrite Eo. reflexivity. }
+  assert (E4 : esteps 1 im s3 = Some (put_vm s (DReg R_RESULT) res 4, [])).
+  { assert (Hf4' : fetch im (m_pc s3) = Some (I1 OC_POP (PReg R_RESULT))) by exact Hf4.
+    apply (estep1 im s3 _ _ _ Hf4'). cbn [Machine.exec i_op i_p0 I1]. unfold pop1. cbn [s3 advance with_pc with_stack m_stack bind put_dest set_reg lift].
+    f_equal. unfold put_vm, advance, with_pc, with_regs, with_stack, s2, s1. cbn. f_equal. lia. }
+  change 4%nat with (1 + (1 + (1 + 1)))%nat. replace (@nil event) with (@nil event ++ (@nil event ++ (@nil event ++ @nil event))) by reflexivity.
+  eapply esteps_app; [exact E1|]. eapply esteps_app; [exact E2|]. eapply esteps_app; [exact E3|exact E4].
+Qed.
+
+Lemma counter_post_steps im s lv d r cnt cnt' :
+  m_frames s = FLoop lv d :: r -> lv_get lv LV_COUNTER = Some cnt -> sub1 cnt = Ok cnt' ->
+  code_at im (m_pc s) (counter_post None) ->
+  esteps 4 im s = Some (with_counter s cnt' 4, []).
+Proof.
+  intros Hfr Hlv Hsub Hc. unfold counter_post, op_equals in Hc. rewrite app_nil_r in Hc. cbn [push_of code_at] in Hc. destruct Hc as [Hf1 [Hf2 [Hf3 [Hf4 _]]]].
+  unfold sub1 in Hsub. destruct (pushable cnt) as [c'|e] eqn:Ep; cbn [bind] in Hsub; [|discriminate].
+  assert (Hc' : c' = cnt /\ cnt <> VNone) by (unfold pushable in Ep; destruct cnt; try discriminate; injection Ep as <-; (split; [reflexivity|discriminate])).
+  destruct Hc' as [-> Hnn].
+  set (s1 := advance (with_stack s (cnt :: m_stack s))).
+  assert (E1 : esteps 1 im s = Some (s1, [])).
+  { apply (estep1 im s _ _ _ Hf1). cbn [Machine.exec i_op i_p0 I1 read_name bind]. unfold get_loopvar. rewrite Hfr, Hlv.
+    destruct cnt; try reflexivity. contradiction. }
+  set (s2 := advance (with_stack s1 (VInt 1 :: m_stack s1))).
+  assert (E2 : esteps 1 im s1 = Some (s2, [])) by (apply (estep1 im s1 _ _ _ Hf2); reflexivity).
+  set (s3 := advance (with_stack s2 (cnt' :: m_stack s))).
+  assert (E3 : esteps 1 im s2 = Some (s3, [])).
+  { assert (Hf3' : fetch im (m_pc s2) = Some (I1 OC_OP (POperator OP_SUB))) by exact Hf3.
+    apply (estep1 im s2 _ _ _ Hf3'). cbn [Machine.exec i_op i_p0 I1 is_unary]. unfold pop1. cbn [s2 s1 advance with_pc with_stack m_stack bind].
+    rewrite Hsub. reflexivity. }
+  assert (E4 : esteps 1 im s3 = Some (with_counter s cnt' 4, [])).
+  { assert (Hf4' : fetch im (m_pc s3) = Some (I1 OC_POP (PLoopVar LV_COUNTER))) by exact Hf4.
+    apply (estep1 im s3 _ _ _ Hf4'). cbn [Machine.exec i_op i_p0 I1]. unfold pop1. cbn [s3 advance with_pc with_stack m_stack bind put_dest].
+    change (m_frames (with_stack s3 (m_stack s))) with (m_frames s). rewrite Hfr. cbn [put_loopvar bind lift]. f_equal. unfold with_counter, advance, with_pc, with_frames, with_vars, with_stack, s3, s2, s1.
+    cbn [advance with_pc with_stack m_pc m_regs m_globals m_frames m_stack m_unnamed m_world]. rewrite Hfr. f_equal. lia. }
+  change 4%nat with (1 + (1 + (1 + 1)))%nat. replace (@nil event) with (@nil event ++ (@nil event ++ (@nil event ++ @nil event))) by reflexivity.
+  eapply esteps_app; [exact E1|]. eapply esteps_app; [exact E2|]. eapply esteps_app; [exact E3|exact E4].
+Qed.
+
 (* the covered statements contain no break: the distance to the end of the enclosing loop does not enter their code *)
 Lemma atom_after st after : simple_atom mt st = true -> c_stmt rt mt false after st = c_stmt rt mt false None st.
 Proof. destruct st as [r v|m|ops|ops|ops| | | | |y v| | | | | | | |[v|]|[v|]| |]; cbn [simple_atom]; intros H; try discriminate; reflexivity. Qed.
@@ -104,8 +250,19 @@ Proof.
   - intros c a b _ _ IHa _ IHb after. rewrite c_if2_after, c_if2, (IHb after), (IHa _). reflexivity.
   - intros l _ IH after. exact (IH after).
   - intros c a _ _ _ after. apply c_loop_after.
+  - intros n a _ _ _ after. apply c_loop_after.
   - intros after. reflexivity.
   - intros st r _ IHst _ IHr after. rewrite c_block_cons_after, c_block_cons, (IHr after), (IHst _). reflexivity.
+Qed.
+
+Lemma c_rval_counter_no_routine v : plain_rval mt v = true -> forallb not_routine (c_rval rt mt v (DLoop LV_COUNTER)) = true.
+Proof.
+  intros Hp. destruct v; cbn [plain_rval] in Hp; try discriminate.
+  - rewrite c_rval_lit. reflexivity.
+  - rewrite c_rval_macro. reflexivity.
+  - rewrite c_rval_var. reflexivity.
+  - rewrite c_rval_reg. reflexivity.
+  - apply andb_true_iff in Hp. destruct Hp as [Hs _]. rewrite c_rval_expr, forallb_app, (c_expr_no_routine rt mt e Hs). reflexivity.
 Qed.
 
 (* no routine markers in the code, so the compiler's relocation-aware length is the length *)
@@ -120,6 +277,7 @@ Proof.
   - intros l _ IH. exact IH.
   - intros c a Hc Ha IHa. rewrite c_while, app_nil_r, (proj1 simple_after a Ha (Some 1)), !forallb_app, IHa,
       (c_rval_no_routine rt mt c (DReg R_RESULT) Hc (plain_ok_result mt c Hc)). reflexivity.
+  - intros n a Hn Ha IHa. rewrite c_count, (proj1 simple_after a Ha _), !forallb_app, IHa, (c_rval_counter_no_routine n Hn). reflexivity.
   - reflexivity.
   - intros st r _ IHst _ IHr. rewrite c_block_cons, forallb_app, IHst, IHr. reflexivity.
 Qed.
@@ -313,6 +471,111 @@ Proof.
     split; [eapply esteps_app; [exact E1|exact En]|]. split; [exact Hsy|].
     split; [rewrite Hpcy; unfold kT, kB, zlength; rewrite !app_length; cbn [length]; rewrite !Nat2Z.inj_add; lia|].
     split; [exact Hsty|exact Hty].
+  - (* counted loop *)
+    intros cn a Hn Ha IHa im ss s sig ss' fuel Hsim Hcode He.
+    destruct fuel as [|[|fuel]]; try discriminate. rewrite exec_count in He.
+    rewrite c_count, (proj1 simple_after a Ha _) in *.
+    pose proof (proj1 simple_no_routine a Ha) as Hnrb.
+    assert (Hnri : forallb not_routine (c_stmt rt mt false None a ++ counter_post None) = true) by (rewrite forallb_app, Hnrb; reflexivity).
+    rewrite (len_no_routine _ Hnri) in *. change (len counter_test) with 4 in *.
+    set (N := c_rval rt mt cn (DLoop LV_COUNTER)) in *. set (B := c_stmt rt mt false None a) in *.
+    set (kN := zlength N) in *.
+    assert (HkI : zlength (B ++ counter_post None) = zlength B + 4) by (unfold zlength; rewrite app_length, Nat2Z.inj_add; reflexivity).
+    rewrite HkI in *. set (kB := zlength B) in *.
+    apply code_at_app in Hcode. destruct Hcode as [Hloop Hcode]. cbn [code_at] in Hloop. destruct Hloop as [Hfl _].
+    apply code_at_app in Hcode. destruct Hcode as [HcN Hcode].
+    apply code_at_app in Hcode. destruct Hcode as [HcT Hcode].
+    apply code_at_app in Hcode. destruct Hcode as [Hj Hcode]. cbn [code_at] in Hj. destruct Hj as [Hfj _].
+    apply code_at_app in Hcode. destruct Hcode as [HcI Hcode]. apply code_at_app in HcI. destruct HcI as [HcB HcP].
+    apply code_at_app in Hcode. destruct Hcode as [Hjb Hend]. cbn [code_at] in Hjb, Hend. destruct Hjb as [Hfjb _]. destruct Hend as [Hfe _].
+    rewrite !zlength1 in HcN, HcT, Hfj, HcB, HcP, Hfjb, Hfe. rewrite HkI in Hfjb, Hfe.
+    change (zlength counter_test) with 4 in Hfj, HcB, HcP, Hfjb, Hfe. fold kN in HcT, Hfj, HcB, HcP, Hfjb, Hfe. fold kB in HcP, Hfjb, Hfe.
+    set (P0 := m_pc s) in *.
+    (* the count is evaluated once *)
+    destruct (eval_rval rt mt fuel false ss cn) as [cnt sa|e sa|sa] eqn:Ev; cbn [sbind] in He; try discriminate.
+    set (d := zlength (m_stack s)).
+    set (s1 := advance (with_frames s (FLoop [] d :: m_frames s))).
+    assert (E1 : esteps 1 im s = Some (s1, [])) by (apply (estep1 im s _ _ _ Hfl); reflexivity).
+    assert (Hs1 : sim ss s1) by (destruct Hsim; constructor; cbn; assumption).
+    assert (HcN1 : code_at im (m_pc s1) N) by exact HcN.
+    destruct (counter_init cn Hn im ss s1 cnt sa fuel [] d (m_frames s) Hs1 eq_refl HcN1 Ev) as [Hsa [nN HnN]]. subst sa. fold N in HnN. fold kN in HnN.
+    set (s2 := with_counter s1 cnt kN) in *.
+    assert (Hs2 : sim ss s2) by (apply sim_with_counter; exact Hs1).
+    (* the iteration *)
+    assert (Hiter : forall f ss1 sx sg ssx lv c0,
+              sim ss1 sx -> m_pc sx = P0 + 1 + kN -> m_frames sx = FLoop lv d :: m_frames s -> lv_get lv LV_COUNTER = Some c0 -> m_stack sx = m_stack s ->
+              iterate rt mt f false ss1 None (Some c0) None None a = ROk sg ssx ->
+              sg = SigNormal /\ exists n sy evs, esteps n im sx = Some (sy, evs) /\ sim ssx sy /\ m_pc sy = P0 + (kN + kB + 12) /\
+                                           (m_stack sy, m_frames sy) = (m_stack s, m_frames s) /\ rev (s_trace ssx) = rev (s_trace ss1) ++ evs).
+    { induction f as [|f IHf]; intros ss1 sx sg ssx lv c0 Hsx Hpcx Hfrx Hlvx Hstx Hit; [discriminate|].
+      rewrite iterate_count in Hit.
+      destruct (positive c0) as [go|e] eqn:Epos; cbn [lift_res sbind] in Hit; [|discriminate].
+      assert (HcTx : code_at im (m_pc sx) counter_test) by (rewrite Hpcx; exact HcT).
+      destruct (counter_test_steps im sx lv d (m_frames s) c0 go Hfrx Hlvx Epos HcTx) as (res & Et & Hres).
+      set (s3 := put_vm sx (DReg R_RESULT) res 4) in *.
+      assert (Hs3 : sim ss1 s3) by (apply sim_put_reg_hidden; [exact Hsx|reflexivity]).
+      assert (Hr3 : rf_get (m_regs s3) R_RESULT = Some res) by (unfold s3; cbn [put_vm m_regs]; apply rf_get_set_same).
+      assert (Hpc3 : m_pc s3 = P0 + 1 + kN + 4) by (unfold s3; cbn [put_vm m_pc]; rewrite Hpcx; reflexivity).
+      assert (Hfj3 : fetch im (m_pc s3) = Some (jump JC_IF_FALSE (kB + 4 + 2))) by (rewrite Hpc3; exact Hfj).
+      pose proof (jump_if_false im s3 res (kB + 4 + 2) Hr3 Hfj3) as Ej. rewrite Hres in Ej.
+      destruct go; cbn [negb] in Hit.
+      - (* the body, the count-down, back to the test *)
+        destruct (Sem.exec rt mt f false ss1 a) as [sgb sb|eb sb|sb] eqn:Eb; cbn [sbind] in Hit; try discriminate.
+        set (s4 := with_pc s3 (m_pc s3 + 1)) in *.
+        assert (HcB4 : code_at im (m_pc s4) B) by (unfold s4; cbn [with_pc m_pc]; rewrite Hpc3; exact HcB).
+        destruct (IHa im ss1 s4 sgb sb f (sim_with_pc ss1 s3 _ Hs3) HcB4 Eb) as [Hsgb (n5 & s5 & e5 & E5 & Hs5 & Hpc5 & Hst5 & Ht5)]. subst sgb.
+        destruct (sub1 c0) as [c1|e] eqn:Esub; cbn [bind] in Hit; [|discriminate].
+        assert (Hst5' : m_stack s5 = m_stack s /\ m_frames s5 = FLoop lv d :: m_frames s).
+        { injection Hst5 as Hsk Hfk. unfold s4 in Hsk, Hfk. cbn [with_pc m_stack m_frames] in Hsk, Hfk. unfold s3 in Hsk, Hfk. cbn [put_vm m_stack m_frames] in Hsk, Hfk.
+          rewrite Hsk, Hfk. split; assumption. }
+        destruct Hst5' as [Hsk5 Hfk5].
+        assert (Hpc5' : m_pc s5 = P0 + 1 + kN + 4 + 1 + kB) by (rewrite Hpc5; unfold s4; cbn [with_pc m_pc]; rewrite Hpc3; fold B; fold kB; reflexivity).
+        assert (HcP5 : code_at im (m_pc s5) (counter_post None)) by (rewrite Hpc5'; exact HcP).
+        pose proof (counter_post_steps im s5 lv d (m_frames s) c0 c1 Hfk5 Hlvx Esub HcP5) as E6.
+        set (s6 := with_counter s5 c1 4) in *.
+        assert (Hs6 : sim sb s6) by (apply sim_with_counter; exact Hs5).
+        assert (Hfjb6 : fetch im (m_pc s6) = Some (jump JC_ALWAYS (- (4 + 1 + (kB + 4))))).
+        { unfold s6. cbn [with_counter m_pc]. rewrite Hpc5'. replace (P0 + 1 + kN + 4 + 1 + kB + 4) with (P0 + 1 + kN + 4 + 1 + (kB + 4)) by lia. exact Hfjb. }
+        pose proof (jump_always im s6 (- (4 + 1 + (kB + 4))) Hfjb6) as Ejb.
+        set (s7 := with_pc s6 (m_pc s6 + - (4 + 1 + (kB + 4)))) in *.
+        destruct (IHf sb s7 sg ssx (lv_set lv LV_COUNTER c1) c1 (sim_with_pc sb s6 _ Hs6)) as [Hsg (n8 & s8 & e8 & E8 & Hs8 & Hpc8 & Hst8 & Ht8)].
+        { unfold s7. cbn [with_pc m_pc]. unfold s6. cbn [with_counter m_pc]. rewrite Hpc5'. lia. }
+        { unfold s7, s6. cbn [with_pc with_counter m_frames]. rewrite Hfk5. reflexivity. }
+        { apply lv_get_set. }
+        { exact Hsk5. }
+        { exact Hit. }
+        split; [exact Hsg|]. exists (4 + (1 + (n5 + (4 + (1 + n8)))))%nat, s8, ([] ++ ([] ++ (e5 ++ ([] ++ ([] ++ e8))))).
+        split; [eapply esteps_app; [exact Et|eapply esteps_app; [exact Ej|eapply esteps_app; [exact E5|eapply esteps_app; [exact E6|eapply esteps_app; [exact Ejb|exact E8]]]]]|].
+        split; [exact Hs8|]. split; [exact Hpc8|]. split; [exact Hst8|]. cbn [app]. rewrite Ht8, Ht5, app_assoc. reflexivity.
+      - (* the count is used up: END_LOOP drops the loop frame *)
+        injection Hit as Hsg Hss. subst ssx.
+        set (s4 := with_pc s3 (m_pc s3 + (kB + 4 + 2))) in *.
+        assert (Hfe4 : fetch im (m_pc s4) = Some (I0 OC_END_LOOP)).
+        { unfold s4. cbn [with_pc m_pc]. rewrite Hpc3. replace (P0 + 1 + kN + 4 + (kB + 4 + 2)) with (P0 + 1 + kN + 4 + 1 + (kB + 4) + 1) by lia. exact Hfe. }
+        assert (Hfr4 : m_frames s4 = FLoop lv d :: m_frames s) by exact Hfrx.
+        assert (Hst4 : m_stack s4 = m_stack s) by exact Hstx.
+        set (s5 := advance (with_stack (with_frames s4 (m_frames s)) (truncate_to (m_stack s4) d))).
+        assert (E5 : esteps 1 im s4 = Some (s5, [])).
+        { apply (estep1 im s4 _ _ _ Hfe4). cbn [Machine.exec i_op I0]. rewrite Hfr4. reflexivity. }
+        assert (Htr : truncate_to (m_stack s4) d = m_stack s).
+        { rewrite Hst4. unfold d. destruct (m_stack s) as [|v k]; cbn [truncate_to]; [reflexivity|]. rewrite Z.leb_refl. reflexivity. }
+        split; [auto|]. exists (4 + (1 + 1))%nat, s5, ([] ++ ([] ++ [])).
+        split; [eapply esteps_app; [exact Et|eapply esteps_app; [exact Ej|exact E5]]|].
+        split.
+        { destruct Hs3 as [Hr Hfu Hg Hfr Hl Hw Hu]. constructor; cbn; try assumption. exact (sim_frames _ _ Hsim). }
+        split; [change (m_pc s5) with (m_pc s3 + (kB + 4 + 2) + 1); rewrite Hpc3; lia|].
+        split; [change (m_stack s5, m_frames s5) with (truncate_to (m_stack s4) d, m_frames s); rewrite Htr; reflexivity|].
+        rewrite app_nil_r. reflexivity. }
+    destruct (Hiter fuel ss s2 sig ss' (lv_set [] LV_COUNTER cnt) cnt Hs2) as [Hsig (n & sy & evs & En & Hsy & Hpcy & Hsty & Hty)].
+    { unfold s2, s1. cbn [with_counter advance with_pc with_frames with_vars m_pc]. fold P0. reflexivity. }
+    { reflexivity. }
+    { apply lv_get_set. }
+    { reflexivity. }
+    { exact He. }
+    split; [exact Hsig|]. exists (1 + (nN + n))%nat, sy, ([] ++ ([] ++ evs)).
+    split; [eapply esteps_app; [exact E1|eapply esteps_app; [exact HnN|exact En]]|]. split; [exact Hsy|].
+    split; [rewrite Hpcy; unfold kN, kB, zlength; rewrite !app_length; cbn [length]; rewrite !Nat2Z.inj_add; change (Z.of_nat (length counter_test)) with 4; change (Z.of_nat (length (counter_post None))) with 4; lia|].
+    split; [exact Hsty|exact Hty].
   - (* empty sequence *)
     intros im ss s sig ss' fuel Hsim Hc He. destruct fuel as [|fuel]; [discriminate|]. rewrite exec_seq_nil in He.
     injection He as Hsig He. subst ss'. split; [auto|]. exists 0%nat, s, [].
@@ -373,6 +636,7 @@ Fixpoint simple_b (fuel : nat) (st : stmt) : bool :=
       | SIf c a (Some b) => plain_rval mt c && simple_b f a && simple_b f b
       | SBlock l => forallb (simple_b f) l
       | SRepeat (LWhile c) a => plain_rval mt c && simple_b f a
+      | SRepeat (LCount n) a => plain_rval mt n && simple_b f a
       | _ => false
       end
   end.
@@ -386,7 +650,7 @@ Proof.
     + apply andb_true_iff in H. destruct H as [H Hb]. apply andb_true_iff in H. destruct H as [Hc Ha].
       apply S_ifelse; [exact Hc|apply IH; exact Ha|apply IH; exact Hb].
     + apply andb_true_iff in H. destruct H as [Hc Ha]. apply S_if; [exact Hc|apply IH; exact Ha].
-  - destruct l; try discriminate. apply andb_true_iff in H. destruct H as [Hc Ha]. apply S_while; [exact Hc|apply IH; exact Ha].
+  - destruct l; try discriminate; apply andb_true_iff in H; destruct H as [Hc Ha]; [apply S_while|apply S_count]; (exact Hc || (apply IH; exact Ha)).
   - apply S_block. clear Ea. induction ss as [|x r IHr]; [constructor|]. cbn [forallb] in H. apply andb_true_iff in H. destruct H as [Hx Hr].
     constructor; [apply IH; exact Hx|apply IHr; exact Hr].
 Qed.
